@@ -347,3 +347,54 @@ def _fold_scenario(op, kind):
 for _op in ("<", "==", ">="):
     for _kind in ("const", "input", "signal"):
         CONTRACTS.append(_fold_scenario(_op, _kind))
+
+# =================================================================================================
+# CSEOptimizer.optimize on a concrete node list (symbolic values): exactly the true duplicate is removed.
+#   x, y  : two declared inputs with the SAME initial value and type      (must stay two operands)
+#   a1 = x * 3, a2 = x * 3                                                 (a2 is the duplicate of a1)
+#   a3 = x * 3 on another output type                                      (stays)
+#   a4 = y * 3                                                             (stays: other operand, although equal-valued)
+#   d1 = (x > 7) : 1 ,  d2 = (7 <= x) : 1 written constant-first          (stays: another comparison)
+# =================================================================================================
+CSEQ = "dsl_compiler/src/ir/optimizer.py::CSEOptimizer."
+
+
+def _arith_t(left_id, out_type):
+    return ty.TObj("IRArith", only=("IRArith",), ftypes=(("left", _ref_t(left_id)), ("right", ty.TConcrete(3)), ("op", ty.TConcrete("*")), ("output_type", ty.TConcrete(out_type)),
+                                                        ("debug_metadata", ty.TConcrete({})), ("needs_wire_separation", ty.TConcrete(False))))
+
+
+def _dec_t(op, left, right):
+    return ty.TObj("IRDecider", only=("IRDecider",), ftypes=(("left", left), ("right", right), ("output_value", ty.TConcrete(1)), ("test_op", ty.TConcrete(op)),
+                                                            ("conditions", ty.TConcrete([])), ("copy_count_from_input", ty.TConcrete(False)), ("output_type", ty.TConcrete("signal-A")),
+                                                            ("debug_metadata", ty.TConcrete({}))))
+
+
+_CSE_NODES = (("x", _mk_const_t(True)), ("y", _mk_const_t(True)), ("a1", _arith_t("x", "signal-A")), ("a2", _arith_t("x", "signal-A")),
+              ("a3", _arith_t("x", "signal-B")), ("a4", _arith_t("y", "signal-A")),
+              ("d1", _dec_t(">", _ref_t("x"), ty.TConcrete(7))), ("d2", _dec_t("<=", ty.TConcrete(7), _ref_t("x"))))
+
+
+def _cse_ids(a):
+    for (n, _t), o in zip(_CSE_NODES, a.ir_operations):
+        o._fields["node_id"] = n
+    # the two inputs start out equal
+    return a.ir_operations[0].value == a.ir_operations[1].value
+
+
+def _cse_post(a, res):
+    ids = [o.node_id for o in res]
+    return ids == ["x", "y", "a1", "a3", "a4", "d1", "d2"] and a.self.replacements == {"a2": "a1"}
+
+
+cse_scenario = Contract(
+    qualname=CSEQ + "optimize",
+    params={"self": ty.TObj("CSEOptimizer", only=("CSEOptimizer",)), "ir_operations": ty.TTuple(tuple(t for _n, t in _CSE_NODES))},
+    requires=[("(node ids; the two inputs have equal initial values)", _cse_ids)],
+    ensures=[("only the node that repeats operator, operands, output type and mode of an earlier one is removed", _cse_post)],
+    uses={"CSEOptimizer._make_key": "inline", "CSEOptimizer._value_key": "inline", "CSEOptimizer._update_references": "inline", "CSEOptimizer._update_value": "inline",
+          "fn:_map_operands": "inline"},
+    dynamic_types={"self": {"expr_cache": ty.TConcrete({}), "replacements": ty.TConcrete({})}},
+    properties=("C10", "C01", "C12", "C02"), min_obligations=1, no_replay=True, note="concrete node list of 8 nodes",
+)
+CONTRACTS.append(cse_scenario)
